@@ -28,6 +28,23 @@ Init == items = {} /\ nextEpoch = 1 /\ hist = <<>>
 Less(a, b) == a.key < b.key \/ (a.key = b.key /\ a.epoch < b.epoch)
 Min == CHOOSE a \in items : \A b \in items : a = b \/ Less(a, b)
 
+(* Ballast: a block of n entries inserted in one step with the key BallastKey (larger than every key the  *)
+(* recorded sequences use otherwise), kept as ONE element of items: [key, epoch |-> first live epoch, hi,  *)
+(* gone |-> epochs above the first that were extracted].  It lets recorded sequences hold more than 2^16   *)
+(* live entries (storage indices and heap positions wider than 16 bits) at the cost of one set element.    *)
+(* Ordering treats the block as its first live entry; entries with BallastKey inserted later have larger   *)
+(* epochs than the whole block, so this is exact.                                                          *)
+BallastKey == 9
+IsBlock(a) == "hi" \in DOMAIN a
+\* what remains of block b (a set of zero or one block) once its entry with epoch e is removed
+Shrink(b, e) ==
+    IF e # b.epoch THEN {[b EXCEPT !.gone = b.gone \cup {e}]}
+    ELSE LET first == CHOOSE x \in (e + 1)..(e + 1 + Cardinality(b.gone)) :
+                          x \notin b.gone /\ \A y \in (e + 1)..(x - 1) : y \in b.gone
+         IN  IF first > b.hi THEN {}
+             ELSE {[b EXCEPT !.epoch = first, !.gone = {g \in b.gone : g > first}]}
+Without(a) == IF IsBlock(a) THEN (items \ {a}) \cup Shrink(a, a.epoch) ELSE items \ {a}
+
 Log(op, arg, ret) == hist' = Append(hist, [op |-> op, arg |-> arg, ret |-> ret])
 
 (* the value stored is the insertion number, which identifies the entry *)
@@ -37,7 +54,7 @@ Insert(k) ==
     /\ Log("insert", k, <<>>)
 
 Pull ==
-    /\ items' = IF items = {} THEN items ELSE items \ {Min}
+    /\ items' = IF items = {} THEN items ELSE Without(Min)
     /\ Log("pull", 0, IF items = {} THEN <<>> ELSE <<Min.key, Min.epoch>>)
     /\ UNCHANGED nextEpoch
 
@@ -49,11 +66,21 @@ Peek ==
 Extract(h) ==
     /\ Indexed
     /\ h < nextEpoch
-    /\ LET hit == {a \in items : a.epoch = h}
-       IN  /\ items' = items \ hit
+    /\ LET hit == {a \in items : IF IsBlock(a) THEN h >= a.epoch /\ h <= a.hi /\ h \notin a.gone ELSE a.epoch = h}
+       IN  /\ items' = IF hit = {} THEN items
+                       ELSE LET a == CHOOSE x \in hit : TRUE
+                            IN  IF IsBlock(a) THEN (items \ {a}) \cup Shrink(a, h) ELSE items \ {a}
            /\ Log("extract", h, IF hit = {} THEN <<>>
-                                ELSE LET a == CHOOSE x \in hit : TRUE IN <<a.key, a.epoch>>)
+                                ELSE LET a == CHOOSE x \in hit : TRUE IN <<a.key, h>>)
     /\ UNCHANGED nextEpoch
+
+(* n inserts with BallastKey in one step (recorded sequences only; needs every queued key <= BallastKey    *)
+(* to be irrelevant, i.e. no block already queued)                                                         *)
+Ballast(n) ==
+    /\ n > 0 /\ \A a \in items : ~IsBlock(a)
+    /\ items' = items \cup {[key |-> BallastKey, epoch |-> nextEpoch, hi |-> nextEpoch + n - 1, gone |-> {}]}
+    /\ nextEpoch' = nextEpoch + n
+    /\ Log("ballast", n, <<n>>)
 
 (* n times (insert an entry whose key k is below every queued key, pull): each pull must return *)
 (* the entry just inserted; the queue is left as it was, n epochs later.  Used by recorded      *)
